@@ -2,10 +2,6 @@
 // Builder::handle_init).  A panic here is the plugin refusing to start (C19's first alternative),
 // so panics are not obligations in this slice (implicit tag REFUSAL is no property); what must
 // hold is that a NORMAL return carries exactly the configured value. -------------------------------
-impl Clone for options::Value {
-    #[verifier::external_body]
-    fn clone(&self) -> (r: Self) ensures r == *self { unimplemented!() }
-}
 //@ fn cln_plugin::Builder::handle_init#value
 //@ implicit [REFUSAL]
 //@ ensures#runs_with_exactly_the_configured_value_or_refuses [C19,C04,C11,C12]
